@@ -190,6 +190,31 @@ func c17R1(c *Ctx) {
 		}
 	}
 	structs := []*types.Named{c.namedType(pkgWorkflow, "loopState"), c.namedType(pkgPlugin, "runningStep"), c.namedType(pkgForeach, "runningStep")}
+	// struct-valued fields of these structs (a group of fields factored out into a nested struct) belong to the same discipline
+	seenSt := map[*types.TypeName]bool{}
+	for _, st := range structs {
+		if st != nil {
+			seenSt[st.Obj()] = true
+		}
+	}
+	for i := 0; i < len(structs); i++ {
+		st := structs[i]
+		if st == nil {
+			continue
+		}
+		stt, ok := st.Underlying().(*types.Struct)
+		if !ok {
+			continue
+		}
+		for j := 0; j < stt.NumFields(); j++ {
+			if nt, ok := stt.Field(j).Type().(*types.Named); ok {
+				if _, isStruct := nt.Underlying().(*types.Struct); isStruct && !seenSt[nt.Obj()] && nt.Obj().Pkg() != nil && strings.HasPrefix(nt.Obj().Pkg().Path(), repoModule) && !isSyncType(nt) {
+					seenSt[nt.Obj()] = true
+					structs = append(structs, nt)
+				}
+			}
+		}
+	}
 	nFields := 0
 	for _, st := range structs {
 		if st == nil {
@@ -546,7 +571,8 @@ func c17R3(c *Ctx) {
 				if c.excluded(fn) {
 					continue
 				}
-				isInit := fn.Name() == "init" && fn.Pkg == sp
+				// the synthesised package initialiser and declared `func init()`s (init#1, ...): both run once, before main
+				isInit := fn.Pkg == sp && fn.Parent() == nil && (fn.Name() == "init" || strings.HasPrefix(fn.Name(), "init#"))
 				eachInstr(fn, func(r instrRef) {
 					switch x := r.I.(type) {
 					case *ssa.Store:
